@@ -54,8 +54,10 @@ def _cost(it):
 
 def param_modes(tier):
     if tier == "thorough":
-        return [("init", 0.0), ("sigma", 0.3), ("sigma", 1.0), ("sigma", 2.0), ("sigma", 3.0)]
-    return [("init", 0.0), ("sigma", 0.5), ("sigma", 1.5)]
+        return [("init", 0.0), ("sigma", 3e-5), ("sigma", 0.003), ("sigma", 0.3), ("sigma", 1.0), ("sigma", 2.0), ("sigma", 3.0)]
+    # 0.003: "first training steps" - parameters near but not at the initialisation (a regime of its own for formulas that
+    # special-case or cancel around the identity)
+    return [("init", 0.0), ("sigma", 3e-5), ("sigma", 0.003), ("sigma", 0.5), ("sigma", 1.5)]
 
 
 def build_item(it, key):
@@ -201,7 +203,11 @@ def run_shard(shard, prop):
                 # (1+softplus(w.u) rounds to 1): no implementation of the paper's parameterisation is a bijection
                 # there.  Planar-containing structures are perturbed with sigma <= 0.5 only (DESIGN 4/C11).
                 mode = (mode[0], 0.25 if mode[1] < 1.0 else 0.5)
-            b = b0 if mode[0] == "init" else perturb(b0, mode[1], it["bseed"] + int(mode[1] * 1000), clip=8.0)
+            b = b0 if mode[0] == "init" else perturb(b0, mode[1], it["bseed"] + int(mode[1] * 1e6), clip=8.0)
+            if it["kind"] == "spec" and it["spec"].get("zero_w"):
+                import equinox as eqx
+
+                b = eqx.tree_at(lambda p: p.params, b, b.params.at[: it["spec"]["dim"]].set(0.0))
             _one_structure(rec, prop, it, meta, b, bundle, mode, rng, T, fdt)
         if getattr(bundle, "mode", "arg") == "closure":
             rec.count("structures_traced_only_as_closure")
@@ -324,7 +330,7 @@ def _one_structure(rec, prop, it, meta, b, bundle, mode, rng, T, fdt):
             e = BB.absmax(xr - x)
             e = np.where(np.isfinite(e), e, np.inf)
             ratio = np.where(cmp_, e / trt, 0)
-            rec.maxi("roundtrip_domain_err_over_tol" + ("_numeric" if amp_inv is not None else ""), ratio.max() if N else 0)
+            rec.maxi("roundtrip_domain_err_over_tol" + ("_numeric" if amp_inv is not None else "") + ("" if T.x64 else "_f32"), ratio.max() if N else 0)
             bad = cmp_ & (e > trt)
             if bad.any():
                 i = int(np.where(bad)[0][np.argmax(ratio[bad])])
@@ -464,7 +470,7 @@ def _one_structure(rec, prop, it, meta, b, bundle, mode, rng, T, fdt):
         rec.count("roundtrip_codomain_compared", cmp2.sum())
         rec.count("roundtrip_codomain_ill_conditioned", (ok2 & ill).sum())
         ratio = np.where(cmp2, e / t, 0)
-        rec.maxi("roundtrip_codomain_err_over_tol" + ("_numeric" if amp2 is not None else ""), ratio.max() if M else 0)
+        rec.maxi("roundtrip_codomain_err_over_tol" + ("_numeric" if amp2 is not None else "") + ("" if T.x64 else "_f32"), ratio.max() if M else 0)
         bad = cmp2 & (e > t)
         if bad.any():
             i = int(np.where(bad)[0][np.argmax(ratio[bad])])
@@ -503,7 +509,7 @@ def _one_structure(rec, prop, it, meta, b, bundle, mode, rng, T, fdt):
 
 
 def K_eps_inv(T, nJi, nx, ny, amp):
-    t = BB.K * T.eps * (1 + nx + (1 + np.nan_to_num(nJi, nan=0, posinf=1e300)) * ny) + T.floor * 1e-3 * (1 + nx)
+    t = T.K * T.eps * (1 + nx + (1 + np.nan_to_num(nJi, nan=0, posinf=1e300)) * ny) + T.floor * 1e-3 * (1 + nx)
     if amp is not None:
         t = t + 10 * T.tol_inv * amp + 4 * T.spacing(nx) * amp
     return t
